@@ -48,6 +48,38 @@ pub fn run(tier: &str, seed: u64, out: &str) {
         let mpk = cc.update_msk(&mut msk).unwrap();
         bases.push((msk.serialize().unwrap().to_vec(), mpk.serialize().unwrap().to_vec()));
     }
+    // key separation: the secret handed to the caller of `EncryptedHeader::generate` must not be the key (nor
+    // open as a key) of the encrypted metadata, whatever authentication data the caller chooses — in
+    // particular data that looks like the derivation labels
+    let mut sep_fails: Vec<serde_json::Value> = vec![];
+    let mut sep_checked = 0usize;
+    {
+        use cosmian_crypto_core::{Dem, FixedSizeCBytes, Instantiable, Nonce, SymmetricKey};
+        let cc = &instances[0];
+        let mpk = MasterPublicKey::deserialize(&bases[0].1).unwrap();
+        let pol = AccessPolicy::parse("D::A").unwrap();
+        let mut ads: Vec<Option<Vec<u8>>> = vec![None, Some(vec![]), Some(b"ad".to_vec()), Some(vec![0; 32]), Some(vec![1; 32])];
+        for b in 0..=255u8 {
+            ads.push(Some(vec![b]));
+            ads.push(Some(vec![0, b]));
+            ads.push(Some(vec![1, b]));
+        }
+        for ad in &ads {
+            let (sec, h) = EncryptedHeader::generate(cc, &mpk, &pol, Some(b"some metadata"), ad.as_deref()).unwrap();
+            let ctx = h.encrypted_metadata.as_ref().unwrap();
+            sep_checked += 1;
+            let key = SymmetricKey::<{ Aes256Gcm::KEY_LENGTH }>::try_from_bytes({ let mut k = [0u8; 32]; k.copy_from_slice(&sec[..]); k }).unwrap();
+            let nonce = Nonce::try_from_slice(&ctx[..Aes256Gcm::NONCE_LENGTH]).unwrap();
+            for try_ad in [ad.as_deref(), None] {
+                if Aes256Gcm::new(&key).decrypt(&nonce, &ctx[Aes256Gcm::NONCE_LENGTH..], try_ad).is_ok() && sep_fails.len() < 10 {
+                    sep_fails.push(serde_json::json!({
+                        "kind": "impl-oracle", "oracle": "key-separation", "tags": ["header"],
+                        "what": format!("the secret returned by EncryptedHeader::generate opens the encrypted metadata (authentication data {:?})", ad),
+                        "lines": [format!("hdr_gen policy=D::A metadata=\"some metadata\" ad={}", ad.as_ref().map(|a| hex(a)).unwrap_or("-".into()))], "case": "key-separation"}));
+                }
+            }
+        }
+    }
     let per = total / threads;
     let mut hs = vec![];
     for t in 0..threads {
@@ -141,7 +173,7 @@ pub fn run(tier: &str, seed: u64, out: &str) {
     }
     let g = seen.lock().unwrap();
     let fails: Vec<serde_json::Value> = g.dups.iter().map(|(cat, v)| serde_json::json!({
-        "kind": "impl-oracle", "oracle": "freshness", "tags": [cat], "what": format!("{cat} repeated: {v}"), "lines": [], "case": cat})).collect();
+        "kind": "impl-oracle", "oracle": "freshness", "tags": [cat], "what": format!("{cat} repeated: {v}"), "lines": [], "case": cat})).chain(sep_fails.iter().cloned()).collect();
     let values: usize = g.counts.values().sum();
     let distinct: usize = g.sets.values().map(|s| s.len()).sum();
     let j = serde_json::json!({
@@ -150,8 +182,8 @@ pub fn run(tier: &str, seed: u64, out: &str) {
         "soft_kind_mismatch": 0, "matrix_cells": 0, "matrix_open": 0,
         "samples": [{"iterations": per * threads, "threads": threads, "instances": 2, "categories": g.counts.keys().collect::<Vec<_>>()}],
         "mismatches": [],
-        "extra": {"rule": format!("{} iterations of identical calls (encaps for a classic and a hybridised policy, re-encapsulation of the result, PKE encryption of the same plaintext, header generation with the same metadata, key generation, rekey of one right) on {} threads over 2 instances; tags, traps, masked seeds, ML-KEM ciphertexts, shared secrets, AEAD nonces, header secrets, user ids and markers, published public values are extracted from the serialised outputs and must be pairwise distinct within and across threads and instances; statistical support only (birthday bound 2^-64 for the 96-bit nonces at 10^6 draws is negligible); distinct = distinct extracted values", per * threads, threads),
-            "exhaustive": false, "per_line": true, "oracle_failures": fails, "oracle_checked": values, "campaign": "C16", "wall_s": t0.elapsed().as_secs_f64()},
+        "extra": {"rule": format!("{} iterations of identical calls (encaps for a classic and a hybridised policy, re-encapsulation of the result, PKE encryption of the same plaintext, header generation with the same metadata, key generation, rekey of one right) on {} threads over 2 instances; tags, traps, masked seeds, ML-KEM ciphertexts, shared secrets, AEAD nonces, header secrets, user ids and markers, published public values are extracted from the serialised outputs and must be pairwise distinct within and across threads and instances; plus key separation: for 773 choices of authentication data (absent, empty, every one-byte value, 0x00/0x01 followed by every byte, longer ones) the secret returned by EncryptedHeader::generate must not open the encrypted metadata as an AES-256-GCM key; statistical support only (birthday bound 2^-64 for the 96-bit nonces at 10^6 draws is negligible); distinct = distinct extracted values", per * threads, threads),
+            "exhaustive": false, "per_line": true, "oracle_failures": fails, "oracle_checked": values + sep_checked, "campaign": "C16", "wall_s": t0.elapsed().as_secs_f64()},
     });
     std::fs::write(out, serde_json::to_string_pretty(&j).unwrap()).unwrap();
     eprintln!("C16 {tier} cfg={} iterations={} values={} distinct={} duplicates={} ({:.1}s)", crate::util::CFG, per * threads, values, distinct, g.dups.len(), t0.elapsed().as_secs_f64());
